@@ -71,6 +71,7 @@ K_ABORT = "end-left-early-keeps-the-last-handlers"
 K_VSUSP = "captured-command-leaves-the-suspend-character-disabled"
 K_STDERR_CLOSED = "o2e-capture-start-failure-closes-session-stderr"
 K_EBADF = "alias-stage-finds-its-pipe-end-closed-and-never-publishes-a-return-code"
+K_O2E_ALIAS = "o2e-capture-closes-session-stderr-while-an-alias-stage-runs"
 K_STD = "overlapping-alias-threads-leave-sys-stdout-on-the-dispatcher"
 
 SIGS = ["SIGINT", "SIGTSTP", "SIGQUIT", "SIGWINCH"]
@@ -981,9 +982,15 @@ def judge(ctx, stream, case, obs, variant):
     # whatever else is off in this case follows from that, and the ledger (which has no dying threads) is not asked
     died = [e for e in obs.get("thread_excs") or [] if "I/O operation on closed file" in e and "ProcProxyThread" in e]
     if (any(obs.get("real_std_closed") or []) or died) and any(s["kind"] == "thr" for s in case["stages"]):
-        ctx.count("case-hit-by/" + K_HANG)
+        # ... unless the closer is CommandPipeline._close_proc itself: since /repo c8fac0d the stdout slot of `$(... | cmd o>e)` holds the
+        # session's sys.stderr object, and readers.safe_fdclose's guard `handle is sys.stderr` does not recognise it while an alias
+        # thread has swapped the global for its dispatcher (deterministic; its own finding)
+        o2e = (case["capture"] == "stdout" and any(r_.get("form") == "outToErr" for r_ in case["stages"][-1]["redirs"])
+               and (obs.get("real_std_closed") or [False] * 3)[2])
+        which = K_O2E_ALIAS if o2e else K_HANG
+        ctx.count("case-hit-by/" + which)
         ctx.spec_failure(info | {"what": "std-closed"}, {"real_std_closed": obs.get("real_std_closed"), "alias_threads_died": died, "state_after": {k: v for k, v in d.items() if k not in ("env", "osenv")}},
-                         "the session's real sys.stdin / sys.stdout / sys.stderr object was closed by the command (an alias thread died of it)", K_HANG)
+                         "the session's real sys.stdin / sys.stdout / sys.stderr object was closed by the command (an alias thread died of it)", which)
         return m, False
     ctx.count(f"why/{m['why']}")
     if aborts:
@@ -1499,7 +1506,7 @@ def replay_known(ctx):
             for attempt in range(4):
                 obs = run_batch([to_item(case, w.get("reps", 1))])[0]
                 has_alias = any(s_["kind"] == "thr" for s_ in case["stages"])
-                hit = is_hang(obs) or (has_alias and isinstance(obs, dict) and (any(obs.get("real_std_closed") or []) or obs.get("thread_excs")))
+                hit = is_hang(obs) or (has_alias and f["key"] != K_O2E_ALIAS and isinstance(obs, dict) and (any(obs.get("real_std_closed") or []) or obs.get("thread_excs")))
                 if not hit:
                     break
                 # the intermittent wedge (K_HANG) struck the witness itself: note it and run the witness again
@@ -1526,7 +1533,7 @@ def replay_known(ctx):
                 bad = bool(r0.get("wait_timeouts")) and bool(d.get("children"))
             elif f["key"] == K_VSUSP:
                 bad = bool(tty0.get("attr_diff"))
-            elif f["key"] == K_STDERR_CLOSED:
+            elif f["key"] in (K_STDERR_CLOSED, K_O2E_ALIAS):
                 bad = any(obs.get("real_std_closed") or [])
             else:
                 bad = bool(d)
